@@ -64,7 +64,7 @@ class time_limit:
 
 
 def translate(ctx):
-    G.regenerate(ctx, ["AlgDone"])
+    G.regenerate(ctx, ["AlgDone", "C12"])
 
 
 # ---- small problem instances of every Alg subclass ---------------------------------------------
